@@ -8,24 +8,24 @@ C = {}
 MORE = {
  "C01": " Also: every number length 1..130 and string literals of every length 0..300 (and around 512/1024/4096), complete and cut off; every allocation request of every entry point refused in turn; the same memory parsed twice with different contents; the enumerations repeated under user-supplied allocators.",
  "C02": " Also: every number length 1..130, string literals of every length 0..300 (and around 512/1024/4096) and the enumerations repeated under user-supplied allocators.",
- "C03": " Also: every malformed tail of up to 4 number characters behind numbers of 61..130 characters (a text is outside the dialect only if it is so under both readings of an over-long number), refused allocations, memory reuse.",
+ "C03": " Also: every malformed tail of up to 4 number characters behind numbers of 61..130 characters (a text is outside the dialect only if it is so under both readings of an over-long number), refused allocations, memory reuse. k malformed escapes behind a plain prefix of every length 0..24.",
  "C10": " Also: every allocation request refused in turn (error position still reported inside the buffer) and the same memory parsed twice with different contents (results independent of earlier calls).",
  "C04": " Also: strings and member names of every length 0..300 (and around 512/1024/4096) in 7 escape patterns; every string of up to 3 (4) bytes over a 12-byte alphabet; trees whose array elements carry stale member names.",
- "C05": " Also: the length ladder of C04 and raw items holding JSON text (0..20 empty raw items for the caller-buffer property).",
- "C09": " Also: the length ladder of C04 and arrays / objects of 0..20 items that print as nothing.",
+ "C05": " Also: the length ladder of C04 and raw items holding JSON text (0..20 empty raw items for the caller-buffer property). Strictness of the output for trees with unnamed members / strings without text.",
+ "C09": " Also: the length ladder of C04 and arrays / objects of 0..20 items that print as nothing. The sweep is repeated on the same tree built with constant member names.",
  "C06": " Also: member names of every byte value and every length 0..300 (and around 512/1024) for lookup, detach, delete and replace by name; references to reference nodes.",
  "C07": " Also: unnamed replacements of object members, malformed number runs longer than any scratch buffer; the ownership comparison continues when the list/map model (C06) already differs.",
  "C11": " Also: in every state a duplicate with each of the first 12 allocation requests refused (source untouched); the verdict for a maximal-depth chain before and after refused duplicates.",
  "C14": " Also: an API script whose Utils calls are refused half-way (over-deep values inside merge patches, patch operations and patch generation).",
  "C19": " Also: every member count 0..70 (and around 128/256/1024/5000) in four key orders, followed by appending a new smallest / middle / largest key and sorting again; merge-patch generation that fails for lack of memory.",
- "C08": " Also: every old x new length of SetValuestring over 11 sizes and parses of tokens longer than any fixed buffer.",
- "C12": " Also: strings / member names of every length 0..300 (and around 512/1024) with near-miss variants and containers of every member count 0..70 (and around 128/256/1000), compared inside groups of equal size.",
- "C13": " Also: runs of every steering byte of every length 1..70 (and around 128/256/1000/4097) in 11 contexts including buffers that end inside a literal or comment; fillers with a carriage return or a trailing backslash inside a line comment.",
- "C15": " Also: member names / tokens of every length 0..300 (and around 512/1024) plain, escaped and non-ASCII with near-miss pointers; every document also with constant keys and with stale member names on array elements.",
+ "C08": " Also: every old x new length of SetValuestring over 11 sizes and parses of tokens longer than any fixed buffer. Bulk constructors of 8..100 elements and string lists with NULL entries.",
+ "C12": " Also: strings / member names of every length 0..300 (and around 512/1024) with near-miss variants and containers of every member count 0..70 (and around 128/256/1000), compared inside groups of equal size. Nodes changed through SetValuestring / SetNumberHelper / SetBoolValue, their duplicates and parsed equivalents.",
+ "C13": " Also: runs of every steering byte of every length 1..70 (and around 128/256/1000/4097) in 11 contexts including buffers that end inside a literal or comment; fillers with a carriage return or a trailing backslash inside a line comment. Fillers combining a line comment with a block comment and a block comment that starts with '/'.",
+ "C15": " Also: member names / tokens of every length 0..300 (and around 512/1024) plain, escaped and non-ASCII with near-miss pointers; every document also with constant keys and with stale member names on array elements. '#'-prefixed pointers; construction under a holder that also contains references to the tree (round trip).",
  "C16": " Also: paths of every length (ladder documents), every pair of numbers whose integer views coincide although the values differ, documents and patches built with constant keys / stale member names.",
  "C17": " Also: ladder documents, chains 998..1500 deep (arrays, objects, alternating), awkward-number pairs.",
  "C18": " Also: ladder documents, chains 998..1500 deep, awkward-number pairs.",
- "C20": " Also: a thread program with tokens larger than any scratch buffer (12 programs, all unordered pairs).",
+ "C20": " Also: a thread program with tokens larger than any scratch buffer (12 programs, all unordered pairs). All pairs also with user-supplied allocation functions installed before the threads start (bounds 0-1).",
 }
 def add(pid, engine, category, technique, text, note, ref):
     text = text + MORE.get(pid, "")
